@@ -16,17 +16,23 @@ c1 := o1.bear({b: 2})
 e1 := 1.try./(0)
 e2 := 1.try.nopeprop
 ev := 3.try
+s0 := "ab"
+h0 := [s0 == "ab", %{s0: 1}]
+sd := s0 + "c"
+sm := s0 * 2
 '''
 
 # (expression, kind) — kind decides which order laws apply
 POOL = [
     ("0", "int"), ("1", "int"), ("-1", "int"), ("2", "int"), ("9223372036854775807", "int"), ("-9223372036854775807", "int"),
+    # neighbours that round to the same float64
+    ("9007199254740992", "int"), ("9007199254740993", "int"), ("9223372036854775806", "int"),
     ("true", "bool"), ("false", "bool"),
     ("MyInt.new(1)", "myint"), ("MyInt.new(2)", "myint"), ("MyInt.new(-3)", "myint"),
     ("0.0", "float"), ("1.5", "float"), ("-1.5", "float"), ("2.0", "float"), ("-0.0", "float"), ("1.0e300", "float"),
     ('""', "str"), ('"a"', "str"), ('"b"', "str"), ('"ab"', "str"), ('"B"', "str"), ('"1"', "str"),
     # strings whose code points agree modulo 256 with an ASCII string (U+3042 U+3044 ~ "BD", U+0142 ~ "B"): equality is by characters
-    ('"BD"', "str"), ('"\u3042\u3044"', "str"), ('"\u0142"', "str"), ('"\u00e9"', "str"), ('"e\u0301"', "str"),
+    ('"abc"', "str"), ("sd", "str"), ("sm", "str"), ('"BD"', "str"), ('"\u3042\u3044"', "str"), ('"\u0142"', "str"), ('"\u00e9"', "str"), ('"e\u0301"', "str"),
     ('MyStr.new("a")', "mystr"), ('MyStr.new("b")', "mystr"),
     ("[]", "arr"), ("[1]", "arr"), ("[1, 2]", "arr"), ("[[1], [2]]", "arr"), ('["a", nil]', "arr"), ("[1.5]", "arr"),
     ("MyArr.new([1])", "myarr"),
@@ -75,7 +81,7 @@ def main(chk):
             a, b, c = POOL[i][0], POOL[j][0], POOL[k][0]
             progs.append("x := %s\ny := %s\nz := %s\n[x < y, y < z, x < z, [x, y, z].max, [x, y, z].min, y.between?(x, z), y.clip(x, z), x <= y, y <= z, "
                          "[x, y, z].max.{|m| m >= x && m >= y && m >= z}, [x, y, z].min.{|m| m <= x && m <= y && m <= z}, "
-                         "(y.clip(x, z) == (x if y < x else (z if y > z else y))) if x <= z else true]\n" % (a, b, c))
+                         "(y.clip(x, z) == (x if y < x else (z if y > z else y))) if x <= z else (y.clip(x, z) == [[y, x].max, z].min)]\n" % (a, b, c))
             meta.append(("tri", i, j, k))
     res = pancore.run_programs(chk, progs, cmp_msg=False, prelude=PRELUDE)
     viol, model_only, hist = [], [], {}
